@@ -141,6 +141,8 @@ func namedSpecs() []spec.Spec {
 			{Op: "AllowAttrs", Names: []string{"lang"}, NoAttrs: true, Scope: "global"},
 			{Op: "AllowAttrs", Names: []string{"id"}, Re: `^[a-z]+$`, NoAttrs: true, Scope: "on", On: []string{"span", "a"}},
 			{Op: "AllowAttrs", Names: []string{"name"}, NoAttrs: true, Scope: "matching", OnRe: reMyX},
+			{Op: "AllowNoAttrs", Re: `^[a-z]+$`, Scope: "matching", OnRe: `^zz-[a-z]+$`},
+			{Op: "AllowNoAttrs", Re: `^[a-z]+$`, Scope: "on", On: []string{"i"}},
 		}},
 		// every forcing / switching option set, none of the elements they concern allowed: an option must never admit anything
 		{Name: "options-without-elements", Base: "new", Calls: []C{
